@@ -32,7 +32,8 @@ Definition context_free_rules : list str := codes [
   "no-prototype-builtins"; "no-redeclare"; "no-regex-spaces"; "no-self-assign"; "no-self-compare";
   "no-setter-return"; "no-shadow-restricted-names"; "no-sparse-arrays"; "no-this-alias";
   "no-this-before-super"; "no-throw-literal"; "no-unsafe-finally"; "no-unsafe-negation";
-  "no-unused-labels"; "no-useless-rename"; "no-var"; "no-with"; "prefer-as-const"; "react-no-danger";
+  "no-unused-labels"; "no-useless-rename"; "no-var"; "no-with"; "prefer-as-const"; "prefer-primordials";
+  "react-no-danger";
   "require-yield"; "single-var-declarator"; "use-isnan"; "valid-typeof" ].
 
 (* The two whole-program analyses rules consult are Visit implementations too (pseudo rules
